@@ -158,7 +158,7 @@ Proof.
 Qed.
 
 (* ---------- the invariant ---------- *)
-Record Inv (t : trk) (g : list N) (h : list call) : Prop := {
+Record Inv (t : trk) (g : list N) (h : list kcall) : Prop := {
   I_ckpt : forall f, f_ckpt (fget t f) = marked_in t f;
   I_lock : forall f, f_locked (fget t f) = locked_in t g f;
   I_bnd : forall f, f_total (fget t f) < u16_mod /\ f_locked (fget t f) < u16_mod;
@@ -404,9 +404,9 @@ Proof. unfold trk_st. now rewrite fold_left_app. Qed.
 Lemma locked_ids_snoc h c : locked_ids (h ++ [c]) = lk (locked_ids h) c.
 Proof. unfold locked_ids. now rewrite fold_left_app. Qed.
 
-Definition st_from (fixed : bool) (t : trk) (p : list call) : trk :=
+Definition st_from (fixed : bool) (t : trk) (p : list kcall) : trk :=
   fold_left (fun t c => fst (trk_step fixed t c)) p t.
-Definition lk_from (g : list N) (p : list call) : list N := fold_left lk p g.
+Definition lk_from (g : list N) (p : list kcall) : list N := fold_left lk p g.
 
 Lemma contract_from_split fixed : forall p t g c rest,
   contract_from fixed t g (p ++ c :: rest) = true ->
@@ -498,7 +498,7 @@ Proof.
 Qed.
 
 (* the history-level reading of "safe to delete" *)
-Definition safe_hist (h : list call) (f : N) : Prop :=
+Definition safe_hist (h : list kcall) (f : N) : Prop :=
   In (CFull f) h /\
   forall id, In (CRegister id f) h -> In (CMark id) h /\ ~ In id (locked_ids h).
 
